@@ -161,12 +161,17 @@ CLAIMS["C13"] = dict(
          "against finite differences) while the proposed repair is; reshape round trips. ASSUMED, not proved: that integrating these variational "
          "equations yields dx(t)/dtheta and dx(t)/dx0 (classical smooth-dependence theorem, not in Mathlib) - checked on every run against finite "
          "differences of 1e-12 reference solutions. The model is tied to the code per run: real functions vs the Lean driver on the exact rational "
-         "J, G, dJ, dG of each random model, and a Lean-free oracle (explicit-loop J.S+G; Richardson finite differences of the real right-hand sides).",
+         "J, G, dJ, dG of each random model, and a Lean-free oracle (explicit-loop J.S+G and block Jacobians; Richardson finite differences of the real "
+         "right-hand sides). Purity along sessions is proved for the model (session_is_pure, earlier_results_kept, revisit_reproduces, "
+         "instances_do_not_interact) and replayed on live instances with the same oracle: every entry point incl. the _T twins and component "
+         "evaluators, the point in 13 containers/dtypes (integer-valued points as int arrays and Python ints), revisits after another time, a sibling "
+         "instance, a parameter re-assignment and an added transition, every returned array kept and compared at the end.",
     note="The derivative theorems take as hypotheses that jacobian/grad/diff_jacobian/grad_jacobian are the partial derivatives they are named after "
          "(C03's theorems; to be discharged there) and that mixed second partials commute (C^2 right-hand side; symmetry of diff_jacobian is re-checked "
          "exactly on every generated model). Trusted: Lean kernel + Mathlib, harness generator/printer/interpreter, driver JSON glue, float tolerances "
          "(1e-9 model tie, 1e-6 finite differences, 1e-5 integrated sensitivities). Defects: by_state=True Jacobian wrong (proposed_fixes/C13-by-state-jacobian.diff), "
-         "one-state models raised (fixed 0a7e442).",
+         "one-state models raised (fixed 0a7e442); lambda back-end: fixed-width integer states wrap around inside the compiled expressions "
+         "(found by the input-form probes, fixed ea55e76; corpus/C13/int-state-wraparound.json keeps watching).",
     technique="Lean 4: index arithmetic (omega/simp) for layouts, HasDerivAt product rule over finite sums for the block Jacobians, decide for the "
               "counterexample + model/code correspondence + finite-difference oracle")
 CLAIMS["C20"] = dict(
